@@ -67,6 +67,7 @@ type gen struct {
 	units    []Unit
 	wheres   map[int]int
 	wherev   map[int]bool
+	unnamed  bool
 	inDefer  int
 	noDyn    int
 	noStatic int
@@ -343,6 +344,9 @@ func (g *gen) stmt() {
 		{"structcopy", 3, true, g.sStructCopy},
 		{"shadow", 3, deep, g.sShadow},
 		{"incdec", 2, true, g.sIncDec},
+		{"tuplecall", 3, true, g.sTupleCall},
+		{"variadic", 3, true, g.sVariadic},
+		{"deferforms", 3, g.inLoop == 0 && g.inDefer == 0, g.sDeferForms},
 		{"mapmut", 3, true, g.sMapMut},
 		{"append", 3, true, g.sAppend},
 		{"pointer", 3, true, g.sPointer},
@@ -397,6 +401,74 @@ func (g *gen) sTuple() {
 func (g *gen) sTrace() { g.line("y.Tr(%s)", g.mod(g.intExpr(2))) }
 func (g *gen) sIncDec() {
 	g.line("%s%s", []string{"a", "b", "st.a", "arr[1]", "(*pi)"}[g.r.Intn(5)], []string{"++", "--"}[g.r.Intn(2)])
+}
+
+// sTupleCall: multi-value results assigned through a temporary tuple, with atoms in the arguments.
+func (g *gen) sTupleCall() {
+	g.f("tuple:multi-value-call")
+	switch g.r.Intn(3) {
+	case 0:
+		g.line("a, b = two(%s, %s)", g.mod(g.intExpr(1)), g.mod(g.intExpr(0)))
+	case 1:
+		g.tmp++
+		g.line("u%d, w%d := two(%s, c)", g.tmp, g.tmp, g.mod(g.intExpr(1)))
+		g.line("c += u%d - w%d", g.tmp, g.tmp)
+	default:
+		g.line("arr[ix(a, 3)], st.a = two(%s, %s)", g.mod(g.intExpr(0)), g.mod(g.intExpr(0)))
+	}
+}
+
+// sVariadic: variadic calls whose arguments are regrouped into a slice; with an existing slice and `...`.
+func (g *gen) sVariadic() {
+	g.f("call:variadic")
+	if g.r.Bool() {
+		g.line("a += sum3(%s, %s, %s)", g.mod(g.intExpr(0)), g.mod(g.intExpr(1)), g.mod(g.intExpr(0)))
+	} else {
+		g.line("b += sum3(%s, sl[:ix(%s, len(sl))]...)", g.mod(g.intExpr(0)), g.intExpr(0))
+	}
+}
+
+// sDeferForms: deferred builtins, deferred method values, receivers and arguments fixed at the defer statement.
+func (g *gen) sDeferForms() {
+	g.tmp++
+	switch g.r.Intn(5) {
+	case 0:
+		g.f("defer:builtin-close-delete")
+		g.line("dc%d := make(chan int, 1)", g.tmp)
+		g.line("dc%d <- %s", g.tmp, g.mod(g.intExpr(0)))
+		g.line("defer close(dc%d)", g.tmp)
+		g.line("defer delete(m, ks[ix(%s, 3)])", g.intExpr(0))
+	case 1:
+		g.f("defer:value-receiver-fixed-at-defer")
+		g.line("dt%d := y.T{N: %d}", g.tmp, 1+g.r.Intn(5))
+		if g.noAtoms > 0 {
+			g.line("defer y.Tr(dt%d.N)", g.tmp)
+		} else {
+			g.line("defer dt%d.VM(%d)", g.tmp, g.nextAtom())
+		}
+		g.line("dt%d.N = 50", g.tmp)
+	case 2:
+		g.f("defer:pointer-receiver-sees-later-change")
+		g.line("dp%d := &y.T{N: %d}", g.tmp, 1+g.r.Intn(5))
+		g.line("defer func() { r += dp%d.N }()", g.tmp)
+		if g.noAtoms == 0 {
+			g.line("defer dp%d.PM(%d)", g.tmp, g.nextAtom())
+		}
+		g.line("dp%d.N += 7", g.tmp)
+	case 3:
+		g.f("defer:method-value")
+		if g.noAtoms == 0 {
+			g.line("defer mv(%d)", g.nextAtom())
+		} else {
+			g.line("defer y.Tr(%d)", g.r.Intn(40))
+		}
+	default:
+		g.f("defer:argument-variable-changed-later")
+		g.line("dv%d := %s", g.tmp, g.mod(g.intExpr(0)))
+		g.line("defer func(q int) { r = rd(r + q) }(dv%d)", g.tmp)
+		g.line("dv%d += 1000", g.tmp)
+		g.line("_ = dv%d", g.tmp)
+	}
 }
 
 func (g *gen) sIf() {
@@ -1086,11 +1158,13 @@ func (g *gen) function(idx int) {
 		// unnamed result: after a recovered panic the function returns the zero value; deferred closures can
 		// not change what a completed return statement returns
 		g.f("func:unnamed-result")
+		g.unnamed = true
 		g.line("func f%d(p int) int {", idx)
 		g.ind++
 		g.line("r := 0")
 		g.line("_ = r")
 	} else {
+		g.unnamed = false
 		g.line("func f%d(p int) (r int) {", idx)
 		g.ind++
 	}
@@ -1142,7 +1216,15 @@ func (g *gen) function(idx int) {
 	g.stmtStart()
 	g.line("r += (a + b*3 + c*5 + len(s) + arr[0] + arr[2] + len(sl) + len(m) + st.a + t.N + e.N + bx.V) %% 9973")
 	g.stmtStart()
-	g.line("return r + %s", g.mod(g.intExpr(1)))
+	if g.unnamed && g.r.Bool() {
+		// a bare identifier as unnamed result: deferred calls that modify the variable afterwards must not
+		// change what was returned
+		g.f("return:bare-identifier-unnamed-result")
+		g.line("r += %s", g.mod(g.intExpr(1)))
+		g.line("return r")
+	} else {
+		g.line("return r + %s", g.mod(g.intExpr(1)))
+	}
 	g.ind--
 	g.line("}")
 	g.line("")
@@ -1190,6 +1272,15 @@ func sel3(c bool, a, b int) int {
 }
 
 func zero() int { return 0 }
+
+func two(x, w int) (int, int) { return (x + w) % 997, (x - w) % 997 }
+
+func sum3(x int, rest ...int) int {
+	for _, v := range rest {
+		x = (x + v) % 9973
+	}
+	return x
+}
 
 func rd(v int) int { return v % 99991 }
 
